@@ -611,6 +611,7 @@ class TracerArrayConversionError(ConcretizationError):
 
 TAINT = _os.environ.get("SUMMER2_VERIF_TAINT", "") == "1"
 _jnp_depth = [0]
+_jit_depth = [0]
 _plain_JArr = JArr
 
 
@@ -890,7 +891,9 @@ if TAINT:
 
     def _rewrap_tree(x, t):
         if isinstance(x, (bool, int, float, _np.generic, _np.ndarray)):
-            return taint(x) if t else x
+            if t:
+                return taint(x)
+            return _rewrap(x, False) if isinstance(x, _np.ndarray) else x      # (arrays stay jax arrays)
         if isinstance(x, tuple):
             return _mk_tuple(x, [_rewrap_tree(e, t) for e in x])
         if isinstance(x, list):
@@ -938,11 +941,25 @@ if TAINT:
         i = max(0, min(i, len(branches) - 1))
         return _branch_all(list(branches), i, *operands)
 
-    lax.while_loop = _t_while_loop
-    lax.fori_loop = _t_fori_loop
-    lax.scan = _t_scan
-    lax.cond = _t_cond
-    lax.switch = _t_switch
+    def _outermost(prim):
+        """a control-flow primitive called with concrete arguments outside any traced function traces its body but
+        returns concrete arrays (jax.lax.scan(...) called eagerly gives ordinary arrays)"""
+        @functools.wraps(prim)
+        def g(*a, **k):
+            outer = _jit_depth[0] == 0 and not (_tainted(a) or _tainted(k))
+            _jit_depth[0] += 1
+            try:
+                res = prim(*a, **k)
+            finally:
+                _jit_depth[0] -= 1
+            return _rewrap_tree(_strip(res), False) if outer else res
+        return g
+
+    lax.while_loop = _outermost(_t_while_loop)
+    lax.fori_loop = _outermost(_t_fori_loop)
+    lax.scan = _outermost(_t_scan)
+    lax.cond = _outermost(_t_cond)
+    lax.switch = _outermost(_t_switch)
 
     def jit(fun=None, static_argnums=None, static_argnames=None, **kw):  # noqa: F811
         if fun is None:
@@ -961,7 +978,15 @@ if TAINT:
             # static arguments are compile-time constants: concrete inside the traced function
             a2 = tuple(v if (i in snums or (i - len(a)) in snums) else taint(v) for i, v in enumerate(a))
             k2 = {n: (v if n in snames else taint(v)) for n, v in k.items()}
-            return fun(*a2, **k2)
+            _jit_depth[0] += 1
+            try:
+                res = fun(*a2, **k2)
+            finally:
+                _jit_depth[0] -= 1
+            if _jit_depth[0] == 0:
+                # what the outermost compiled function hands back to its caller is concrete again
+                return _rewrap_tree(_strip(res), False)
+            return res
 
         return traced
 
